@@ -13,6 +13,7 @@
   the code checks); minGasMultiplier ≤ 1 as Params.Validate enforces.
 -/
 import HaqqModel.Model.Fees
+import HaqqModel.Generated.Facts
 
 namespace Haqq.Fees
 
@@ -126,15 +127,15 @@ example : gasUsed 100000 26006 4800 5 (dec18 / 2) = 50000 ∧ gasUsed 30000 2600
 
 /-! ### what a Cosmos transaction is charged -/
 
-/-- **a Cosmos transaction carrying the dynamic-fee option is charged at least the floor** (since cda7d87): accepted with
-    a positive minimum gas price and gas limit, what the fee checker deducts is at least ⌈minGasPrice × gasLimit⌉ -/
-theorem cosmos_charged_floor (minGPraw gas fee baseFee tip : Nat) (hm : 0 < minGPraw) (hg : 0 < gas)
-    (h : cosmosFloorAcceptTx true minGPraw gas fee baseFee (some tip) = true) :
-    minGPraw * gas ≤ cosmosCharged gas fee baseFee (some tip) * dec18 := by
-  simp only [cosmosFloorAcceptTx, Bool.and_eq_true, Bool.or_eq_true, Bool.not_true, Option.isNone_some,
+/-- a Cosmos transaction that is admitted (base fee in force) is charged at least minGasPrice × gas, with or without the
+    dynamic-fee extension option -/
+theorem cosmos_charged_floor (minGPraw gas fee baseFee : Nat) (tip : Option Nat) (hm : 0 < minGPraw) (hg : 0 < gas)
+    (h : cosmosFloorAcceptTx true true minGPraw gas fee baseFee tip = true) :
+    minGPraw * gas ≤ cosmosCharged gas fee baseFee tip * dec18 := by
+  simp only [cosmosFloorAcceptTx, Bool.and_eq_true, Bool.or_eq_true, Bool.not_true, Bool.and_false,
     decide_eq_true_eq] at h
   have h2 := h.2
-  have hreq : cosmosRequired minGPraw gas ≤ cosmosCharged gas fee baseFee (some tip) := by
+  have hreq : cosmosRequired minGPraw gas ≤ cosmosCharged gas fee baseFee tip := by
     rcases h2 with h2 | h2
     · rcases h2 with h2 | h2
       · rcases h2 with h2 | h2
@@ -151,10 +152,21 @@ theorem cosmos_charged_floor (minGPraw gas fee baseFee tip : Nat) (hm : 0 < minG
     omega
   exact Nat.le_trans this (Nat.mul_le_mul_right _ hreq)
 
-/-- before: minimum gas price 1 (raw 10^18), gas 200 000, declared fee exactly the floor, tip 0, base fee 0 — accepted and
-    charged nothing; with the repair it is refused -/
+/-- before cda7d87: minimum gas price 1 (raw 10^18), gas 200 000, declared fee exactly the floor, tip 0, base fee 0 —
+    accepted and charged nothing; with the repair it is refused -/
 theorem cosmos_charged_below_floor_counterexample :
-    cosmosFloorAcceptTx false dec18 200000 200000 0 (some 0) = true ∧ cosmosCharged 200000 200000 0 (some 0) = 0 ∧
-    cosmosFloorAcceptTx true dec18 200000 200000 0 (some 0) = false := by decide
+    cosmosFloorAcceptTx false false dec18 200000 200000 0 (some 0) = true ∧ cosmosCharged 200000 200000 0 (some 0) = 0 ∧
+    cosmosFloorAcceptTx true false dec18 200000 200000 0 (some 0) = false := by decide
+
+/-- cda7d87 alone: no extension option, minimum gas price 1.5, gas 3, declared fee 5 = ⌈4.5⌉, base fee 1 — accepted, and
+    charged ⌊5/3⌋ × 3 = 3, below the floor; now it is refused -/
+theorem cosmos_charged_rounded_down_counterexample :
+    cosmosFloorAcceptTx true false (15 * 10 ^ 17) 3 5 1 none = true ∧ cosmosCharged 3 5 1 none = 3 ∧
+    cosmosRequired (15 * 10 ^ 17) 3 = 5 ∧ cosmosFloorAcceptTx true true (15 * 10 ^ 17) 3 5 1 none = false := by decide
+
+/-- the code's side of `cosmosFloorAcceptTx true true`: the decorator compares what will be charged with the floor for every
+    Cosmos transaction, not only for those carrying the option (regenerated from app/ante/cosmos/min_price.go) -/
+theorem cosmos_floor_looks_at_every_charged_amount :
+    Haqq.Facts.cosmosFloorChargedScope = "charged-amount-of-every-transaction" := by decide
 
 end Haqq.Fees
